@@ -65,8 +65,15 @@ Definition cursor_box : Type := (Z * Z * Z * Z)%type.      (* xhot, yhot, width,
 (* deferral timer and scaled-screen bookkeeping of one client *)
 Record client_ext : Type := mkCExt {
   xDefS : Z; xDefU : Z;            (* cl->startDeferring (tv_sec, tv_usec); tv_usec = 0: not deferring *)
-  xScaled : option (Z * Z)         (* size of cl->scaledScreen when it is not the screen itself *)
+  xScaled : option (Z * Z);        (* size of cl->scaledScreen when it is not the screen itself *)
+  xLife : Z                        (* 0 = connected; 1 = closed (rfbCloseClient: sock = -1) but still in the
+                                      client list; 3 = closed, and its scaled screen has been freed under it
+                                      (dangling cl->scaledScreen); 2 = reaped by rfbClientConnectionGone *)
 }.
+
+Definition ext_timer (e : client_ext) (s u : Z) : client_ext := mkCExt s u (xScaled e) (xLife e).
+Definition ext_scaled (e : client_ext) (sc : option (Z * Z)) : client_ext := mkCExt (xDefS e) (xDefU e) sc (xLife e).
+Definition ext_life (e : client_ext) (l : Z) : client_ext := mkCExt (xDefS e) (xDefU e) (xScaled e) l.
 
 Record client : Type := mkClient {
   cM : region;            (* modifiedRegion *)
@@ -161,6 +168,9 @@ Definition set_sext (st : state) (e : state_ext) : state :=
   mkState (sW st) (sH st) (sBpp st) (sFBid st) (sFB st) (sCursor st) (sCurX st) (sCurY st)
           (sMaxRects st) (sSliceH st) (sClients st) e.
 Definition cScaled (c : client) : option (Z * Z) := xScaled (cExt c).
+Definition cLive (c : client) : bool := xLife (cExt c) =? 0.
+Definition cClosed (c : client) : bool := (xLife (cExt c) =? 1) || (xLife (cExt c) =? 3).   (* closed, not yet reaped *)
+Definition cDangling (c : client) : bool := xLife (cExt c) =? 3.
 
 Definition fbf (st : state) : Z -> Z -> Z := pic_get (sFB st).
 
@@ -203,7 +213,7 @@ Definition new_client (st : state) : client :=
   mkClient (rgn_create_rect 0 0 (sW st) (sH st)) rgn_empty 0 0 rgn_empty
            false false false false (sCurX st) (sCurY st) 0 false false false 0 0
            (sBpp st) (sW st) (sH st) (pic_build (sW st) (sH st) (fun _ _ => 0))
-           (mkCExt 0 0 None).
+           (mkCExt 0 0 None 0).
 
 (* ------------------------------------------------------------------ rfbMarkRectAsModified *)
 Definition mark_clip (W H x1 y1 x2 y2 : Z) : option rect :=
@@ -502,9 +512,9 @@ Definition tick_client (st : state) (c : client) : option (client * option wmsg)
     if xDefer (sExt st) =? 0 then send_client st c
     else if xDefU (cExt c) =? 0 then
       let u := xNowU (sExt st) in
-      Some (set_cext c (mkCExt (xNowS (sExt st)) (if u =? 0 then 1 else u) (cScaled c)), None)
+      Some (set_cext c (ext_timer (cExt c) (xNowS (sExt st)) (if u =? 0 then 1 else u)), None)
     else if (xNowS (sExt st) <? xDefS (cExt c)) || (elapsed_ms st c >? xDefer (sExt st))
-         then send_client st (set_cext c (mkCExt (xDefS (cExt c)) 0 (cScaled c)))
+         then send_client st (set_cext c (ext_timer (cExt c) (xDefS (cExt c)) 0))
          else Some (c, None)
   else Some (c, None).
 
@@ -528,8 +538,7 @@ Definition setscale_client (st : state) (n : Z) (c : client) : state_ext * clien
   let e' := if is_main || in_chain || negb ok then e
             else mkSExt (xDefer e) (xNowS e) (xNowU e) ((w, h) :: xChain e) in
   let c1 := if ok
-            then set_size_state (set_cext c (mkCExt (xDefS (cExt c)) (xDefU (cExt c))
-                                                    (if is_main then None else Some (w, h))))
+            then set_size_state (set_cext c (ext_scaled (cExt c) (if is_main then None else Some (w, h))))
                                 true (cReqChange c) (cLastErr c)
             else c in
   (* rfbSendNewScaleSize *)
@@ -558,19 +567,37 @@ Fixpoint find_factor (fuel : nat) (f oldW oldH sw sh : Z) : Z :=
            else find_factor k (f + 1) oldW oldH sw sh
   end.
 
+(* Which clients does the re-pointing loop of rfbNewFramebuffer visit?  It uses rfbGetClientIterator,
+   which skips clients that are closed but not yet reaped (sock == -1, still in the client list until
+   rfbProcessEvents calls rfbClientConnectionGone); rfbGetClientIteratorWithClosed would visit them. *)
+Definition newfb_rescale_visits_closed : bool := false.
+
+Definition rescale_visits (c : client) : bool :=
+  cLive c || (newfb_rescale_visits_closed && cClosed c).
+
 Definition rescale_client (w h oldW oldH : Z) (chain : list (Z * Z)) (c : client) : list (Z * Z) * client :=
+  if negb (rescale_visits c) then
+    (* not visited: a closed client keeps pointing at its scaled screen, which is freed with the chain *)
+    (chain, if cClosed c then match cScaled c with
+                              | Some _ => set_cext c (ext_life (cExt c) 3)
+                              | None => c
+                              end
+            else c)
+  else if cClosed c then
+    (* (only with rfbGetClientIteratorWithClosed) a closed client is merely pointed back at the screen *)
+    (chain, set_cext c (ext_scaled (ext_life (cExt c) 1) None))
+  else
   match cScaled c with
   | None => (chain, c)
   | Some (sw, sh) =>
       let f := find_factor (Z.to_nat (Z.max oldW oldH)) 1 oldW oldH sw sh in
-      let unscaled := set_cext c (mkCExt (xDefS (cExt c)) (xDefU (cExt c)) None) in
+      let unscaled := set_cext c (ext_scaled (cExt c) None) in
       if (f >? 1) && (Z.quot w f >? 0) && (Z.quot h f >? 0) then
         let nw := Z.quot w f in let nh := Z.quot h f in
         let is_main := (nw =? w) && (nh =? h) in
         let in_chain := existsb (fun '(a, b) => (a =? nw) && (b =? nh)) chain in
         (if is_main || in_chain then chain else (nw, nh) :: chain,
-         set_size_state (set_cext c (mkCExt (xDefS (cExt c)) (xDefU (cExt c))
-                                            (if is_main then None else Some (nw, nh))))
+         set_size_state (set_cext c (ext_scaled (cExt c) (if is_main then None else Some (nw, nh))))
                         true (cReqChange c) (cLastErr c))
       else (chain, unscaled)
   end.
@@ -630,7 +657,9 @@ Inductive op : Type :=
 | OpTime (sec usec : Z)                       (* the clock read by gettimeofday *)
 | OpDefer (ms : Z)                            (* screen->deferUpdateTime *)
 | OpSetPixelFormat (c : nat) (bpp : Z)
-| OpSetScale (c : nat) (scale : Z).
+| OpSetScale (c : nat) (scale : Z)
+| OpClose (c : nat)                           (* rfbCloseClient(cl): sock = -1, the client stays in the list *)
+| OpReap.                                     (* what rfbProcessEvents does with closed clients: rfbClientConnectionGone *)
 
 Fixpoint upd_nth {A} (n : nat) (l : list A) (f : A -> option (A * option wmsg))
   : option (list A * option wmsg) :=
@@ -659,7 +688,7 @@ Definition do_copy (st : state) (K : region) (dx dy : Z) (newf : Z -> Z -> Z) : 
 
 (* one operation: new state and the messages put on the wire (client index, message);
    [None] = explicit error (crash of the C code, out-of-range access, unknown client) *)
-Definition step (st : state) (o : op) : option (state * list (nat * wmsg)) :=
+Definition step0 (st : state) (o : op) : option (state * list (nat * wmsg)) :=
   match o with
   | OpAddClient => Some (set_clients st (sClients st ++ [new_client st]), [])
   | OpMark x1 y1 x2 y2 =>
@@ -749,6 +778,38 @@ Definition step (st : state) (o : op) : option (state * list (nat * wmsg)) :=
             | None => None
             end
         end
+  | OpClose c =>
+      match upd_nth c (sClients st) (fun cl => Some (set_cext cl (ext_life (cExt cl) 1), None)) with
+      | Some (l, _) => Some (set_clients st l, [])
+      | None => None
+      end
+  | OpReap =>
+      (* rfbClientConnectionGone(cl) does cl->scaledScreen->scaledScreenRefCount--: if the scaled screen
+         of a closed client has been freed meanwhile this is a use after free: explicit error *)
+      if existsb cDangling (sClients st) then None
+      else Some (set_clients st (map (fun cl => if cClosed cl then set_cext cl (ext_life (cExt cl) 2) else cl)
+                                     (sClients st)), [])
+  end.
+
+(* operations addressed to one client need that client to be connected (its record may still be in the
+   list after rfbCloseClient, or gone: the model keeps a tombstone so that indices stay stable).
+   NOTE: the library's client loops (mark, copy, newfb, ...) skip closed clients; the model keeps
+   updating their regions - they are never observed again, only their life flag and their scaled
+   screen matter (rfbNewFramebuffer's re-pointing loop, rfbClientConnectionGone). *)
+Definition op_target (o : op) : option nat :=
+  match o with
+  | OpRequest c _ _ _ _ _ | OpSetEncodings c _ _ _ _ | OpTick c | OpSend c
+  | OpSetDesktopSize c _ _ _ _ | OpSetPixelFormat c _ | OpSetScale c _ | OpClose c => Some c
+  | _ => None
+  end.
+
+Definition live_at (st : state) (c : nat) : bool :=
+  match nth_error (sClients st) c with Some cl => cLive cl | None => false end.
+
+Definition step (st : state) (o : op) : option (state * list (nat * wmsg)) :=
+  match op_target o with
+  | Some c => if live_at st c then step0 st o else None
+  | None => step0 st o
   end.
 
 Fixpoint run (st : state) (ops : list op) : option state :=
